@@ -104,6 +104,9 @@ class EPpiston(ExactSolver):
         self.wv_el = math.sqrt( (self.rho_y*sg_y)/(rho0*(rho0-self.rho_y)))
         self.vel_y = self.wv_el*(self.rho_y-rho0)/self.rho_y
 
+        if self.up <= self.vel_y:
+            raise ValueError('Piston velocity must be > particle velocity at the yield point: no plastic wave forms')
+
         ### Solve values for plastic wave ###
 
         #purely a jump condition solve
